@@ -543,7 +543,7 @@ def multi_file_cases(ctx, wd):
                     elif (u := re.search(r"undefined variable '(\w+)", r[2])) and re.search(r"needs\s+[\w\s,]*\b" + re.escape(u.group(1)) + r"\b[\w\s,]*\sfrom\s+(?!std\.)", prog):
                         sig = f"{route}:symbol-import-not-resolvable"     # `needs inc from helpers`: the saved global is just `inc`
                     else:
-                        sig = (f"{route}:function-name-lost" if (name.startswith("fn-name-") or name == "corpus-function_names") and "<anonymous>" in r[1] else
+                        sig = (f"{route}:function-name-lost" if (name.startswith("fn-name-") or name == "corpus-function_names") else
                                f"cli:{route}:multi-file-differs:" + ("entry-path-form" if name.startswith("entry-") else name))
                 elif base[0] != 0 and opt == 0 and report_lines(r[2], os.path.basename(stem)) != report_lines(base[2], os.path.basename(stem)):
                     # -O0 keeps the line table in .avbc (higher levels strip it on purpose)
